@@ -21,12 +21,15 @@ theorem scan_restores_clean (P : Params) (v : Variant) (cb : Nat → CbRet) (sta
 
 /-- Along every history the scanner is either clean or holds a suspended scan (with its notebook);
     loaded modules never survive a call. -/
-theorem history_invariant (P : Params) (v : Variant) (set : Settings) (w : World) (h : List HOp) :
+theorem history_invariant (P : Params) (v : Variant) (set : Settings) (w : World) (h : List HOp) (hv : reuseOk v h) :
     let st := runH P v (HSt.init set w) h
     st.sc.core.modules = [] ∧ (st.sc.core.notebook = false → st.sc.core.Clean) ∧
-    (st.lastRc = .blockNotReady → st.sc.core.notebook = true) := by
-  have := runH_inv P v _ h (HInv.init set w)
-  exact ⟨this.inv.modules, this.inv.clean, this.susp⟩
+    (st.lastRc = .blockNotReady ↔ st.sc.core.notebook = true) := by
+  have := runH_inv P v _ h (HInv.init set w) hv
+  refine ⟨this.inv.modules, this.inv.clean, this.susp, fun hn => ?_⟩
+  by_cases hl : (runH P v (HSt.init set w) h).lastRc = .blockNotReady
+  · exact hl
+  · have := this.idle hl; rw [hn] at this; cases this
 
 /-- **Settings survive every scan, whatever its outcome**: after any history (scans of every kind, `yr_scanner_scan_proc`
     with any process memory or failing to attach, suspended / abandoned scans) the scanner's flags, timeout and callback
@@ -47,17 +50,44 @@ theorem history_independent (P : Params) (set : Settings) (w0 : World)
     tracesH P .fixed st (.start x :: List.replicate k .cont) =
       tracesH P .fixed (HSt.init (settingsAfter set h) st.w) (.start x :: List.replicate k .cont) := by
   intro st
-  have hinv : HInv st := runH_inv P .fixed _ h (HInv.init set w0)
+  have hinv : HInv st := runH_inv P .fixed _ h (HInv.init set w0) (reuseOk_fixed h)
   have hset : st.sc.set = settingsAfter set h := runH_set P .fixed _ h
   generalize settingsAfter set h = set' at hcb hset ⊢
   simp only [tracesH]
   have hobs := scanCall_fresh_eq P x.cb x.stack st.sc x.it { st.w with nmsg := 0 }
-    (by rw [hset]; exact hcb) hinv.inv (by simp [Start.it])
+    (by rw [hset]; exact hcb) hinv.inv (Or.inl (by simp [Start.it]))
   rw [hset] at hobs
   have e := obs_equiv hobs x.cb x.stack st (HSt.init set' st.w)
   have h1 : (stepH P .fixed st (.start x)).2 = (stepH P .fixed (HSt.init set' st.w) (.start x)).2 := by
     simp only [stepH, HSt.init]; rw [e.2]
   have h2 : HSt.Equiv (stepH P .fixed st (.start x)).1 (stepH P .fixed (HSt.init set' st.w) (.start x)).1 := by
+    simp only [stepH, HSt.init]; exact e.1
+  rw [h1, tracesH_equiv P .fixed _ _ _ h2]
+
+/-- **… also when the caller re-uses its iterator object without resetting `last_error`** (e.g. after a scan in which a block
+    was "not ready" during rule evaluation — finding F27 — which returns success but leaves ERROR_BLOCK_NOT_READY there):
+    unless a suspended scan is really pending (the last call returned ERROR_BLOCK_NOT_READY), the next scan with that
+    iterator, whatever stale `last_error` it carries, gives the trace and result of the same call on a new scanner. Nothing
+    of the earlier scan is carried over: no matches, no flags, no skipped blocks. (Code with the fixes; needs
+    "resume only when a scan is pending", /repo 434a87f.) -/
+theorem history_independent_reused_iterator (P : Params) (set : Settings) (w0 : World)
+    (h : List HOp) (x : Start) (k : Nat) (hcb : (settingsAfter set h).hasCallback = true) :
+    let st := runH P .fixed (HSt.init set w0) h
+    st.lastRc ≠ .blockNotReady →
+    tracesH P .fixed st (.reuse x :: List.replicate k .cont) =
+      tracesH P .fixed { HSt.init (settingsAfter set h) st.w with it := st.it } (.reuse x :: List.replicate k .cont) := by
+  intro st hidle
+  have hinv : HInv st := runH_inv P .fixed _ h (HInv.init set w0) (reuseOk_fixed h)
+  have hset : st.sc.set = settingsAfter set h := runH_set P .fixed _ h
+  generalize settingsAfter set h = set' at hcb hset ⊢
+  simp only [tracesH]
+  have hobs := scanCall_fresh_eq P x.cb x.stack st.sc { x.it with lastError := st.it.lastError } { st.w with nmsg := 0 }
+    (by rw [hset]; exact hcb) hinv.inv (Or.inr (hinv.idle hidle))
+  rw [hset] at hobs
+  have e := obs_equiv hobs x.cb x.stack st { HSt.init set' st.w with it := st.it }
+  have h1 : (stepH P .fixed st (.reuse x)).2 = (stepH P .fixed { HSt.init set' st.w with it := st.it } (.reuse x)).2 := by
+    simp only [stepH, HSt.init]; rw [e.2]
+  have h2 : HSt.Equiv (stepH P .fixed st (.reuse x)).1 (stepH P .fixed { HSt.init set' st.w with it := st.it } (.reuse x)).1 := by
     simp only [stepH, HSt.init]; exact e.1
   rw [h1, tracesH_equiv P .fixed _ _ _ h2]
 
@@ -133,6 +163,18 @@ example :
       tracesH P .fixed (HSt.init set w0) [.start text] ∧
     tracesH P .fixed (runH P .fixed (HSt.init set w0) [.start slow]) [.start once] =
       tracesH P .fixed (HSt.init set w0) [.start once] := by
+  decide
+
+open Witness in
+/-- the situation of `history_independent_reused_iterator`, concretely: the iterator answers "not ready" to the second block and
+    is re-used, stale `last_error` included, after the scan was abandoned... with the fixes the re-used iterator starts a fresh
+    scan of the other data; the 4.5.2 code resumed instead (`Variant.current`): no scan of the first block, stale matches. -/
+example :
+    let h : List HOp := [.start slow, .start once]          -- abandon the suspended scan, complete another one
+    (runH P .fixed (HSt.init set w0) h).lastRc = .success ∧
+    tracesH P .fixed (runH P .fixed (HSt.init set w0) [.start slow]) [.start once, .reuse once] =
+      [some ([.ruleNotMatching 0 [], .ruleNotMatching 1 [(0, [⟨0, 2, 3⟩])], .scanFinished], .success),
+       some ([.ruleNotMatching 0 [], .ruleNotMatching 1 [(0, [⟨0, 2, 3⟩])], .scanFinished], .success)] := by
   decide
 
 open Witness in
